@@ -406,6 +406,14 @@ func dnWorkload() {
 		{{"CN", "x=DC=y"}, {"DC", "real"}},
 		{{"CN", "line\nbreak,DC=evil"}, {"DC", "real"}},
 		{{"DC", "xn--80ak6aa92e"}, {"DC", "under_score"}, {"DC", "UPPER"}, {"DC", "9"}},
+		// a component with an empty value is still a component of the join (first, middle, last, only)
+		{{"DC", ""}, {"DC", "com"}},
+		{{"DC", "a"}, {"DC", ""}, {"DC", "b"}},
+		{{"DC", "a"}, {"DC", ""}},
+		{{"DC", ""}},
+		{{"DC", ""}, {"DC", ""}, {"DC", "x"}},
+		{{"CN", "x"}, {"DC", ""}, {"DC", "corp"}, {"DC", "com"}},
+		{{"CN", ""}, {"DC", "corp"}, {"DC", "com"}},
 	}
 	for i, d := range det {
 		for si, stl := range adStyles {
@@ -457,7 +465,9 @@ func dnWorkload() {
 			if rng.IntN(2) == 0 && i >= n/2 {
 				typ = "DC" // the usual shape: DCs at the end
 			}
-			if typ == "DC" {
+			if typ == "DC" && rng.IntN(40) == 0 {
+				rdns[i] = rdn{typ, ""}
+			} else if typ == "DC" {
 				rdns[i] = rdn{typ, label(rng)}
 			} else if rng.IntN(3) == 0 {
 				rdns[i] = rdn{typ, label(rng)}
